@@ -140,6 +140,7 @@ impl<'tcx> Ex<'tcx> {
             let cs = sp.source_callsite();
             let clo = sm.lookup_char_pos(cs.lo());
             o.push(("cl".to_string(), n(clo.line as i128)));
+            o.push(("cf".to_string(), s(format!("{}", clo.file.name.prefer_local_unconditionally()))));
         }
         J::Obj(o)
     }
